@@ -126,6 +126,12 @@ class DtnTimeField(UintField):
     def i2repr(self, pkt, x):
         return self.i2h(pkt, x)
 
+    def i2m(self, pkt, x):
+        if x is None:
+            # how i2h() shows the zero (unknown) time
+            return 0
+        return UintField.i2m(self, pkt, x)
+
     def h2i(self, pkt, x):
         return self.any2i(pkt, x)
 
